@@ -294,8 +294,33 @@ func goodValues() []HVal {
 		mkVal("bytes", []byte("bin\x00")),
 		mkVal("mixed", []interface{}{res.Ref("a.b"), res.SoftRef("c.d"), res.DataValue[interface{}]{Data: nil}, true, 1, "s"}),
 		mkVal("responseLike", map[string]interface{}{"error": map[string]interface{}{"code": 1}, "result": nil, "meta": 1}),
+		// pre-encoded values that ARE valid JSON (json.Marshal validates and compacts them)
+		mkVal("rawobj", json.RawMessage(`{"foo":"bar"}`)),
+		mkVal("rawarr", json.RawMessage(`[1,2,3]`)),
+		mkVal("rawobjws", json.RawMessage(" \n{ \"foo\" : [ 1 , {\"a\":null} ] }\t ")),
+		mkVal("rawarrws", json.RawMessage("[ 1 ,\n 2 ]\n")),
+		mkVal("rawnil", json.RawMessage(nil)),
+		mkVal("rawstr", json.RawMessage(`"just a string"`)),
+		mkVal("rawptr", &rawObj),
+		mkVal("bytesmarshaler", bytesMarshaler(" { \"k\" : [true] } ")),
+		mkVal("bytesmarshalerarr", bytesMarshaler("[{\"x\":1}]")),
+		mkVal("rawinmap", map[string]interface{}{"m": json.RawMessage(`{"a": 1}`), "c": json.RawMessage(`[ ]`), "n": json.RawMessage(nil)}),
+		mkVal("rawinslice", []interface{}{json.RawMessage(`{"a":[1, 2]}`), bytesMarshaler("[1]"), []json.RawMessage{json.RawMessage(`1`), json.RawMessage(` "s" `)}}),
+		mkVal("rawinstruct", struct {
+			R json.RawMessage  `json:"r"`
+			P *json.RawMessage `json:"p"`
+			O json.RawMessage  `json:"o,omitempty"`
+		}{R: json.RawMessage(`{"z": 0}`), P: &rawObj}),
 	}
 }
+
+var rawObj = json.RawMessage(`{"p": [1]}`)
+var rawBad = json.RawMessage(`{"p": [1}`)
+
+// bytesMarshaler is a type whose MarshalJSON returns its bytes as they are (pre-encoded value)
+type bytesMarshaler string
+
+func (b bytesMarshaler) MarshalJSON() ([]byte, error) { return []byte(b), nil }
 func badValues() []HVal {
 	c := &cyc{}
 	c.Next = c
@@ -313,6 +338,29 @@ func badValues() []HVal {
 		mkVal("nestedchan", []interface{}{1, map[string]interface{}{"ok": 1, "bad": make(chan string)}}),
 		mkVal("nestedfunc", map[string]interface{}{"f": func(int) int { return 0 }}),
 		mkVal("refptrchan", &struct{ C chan int }{}),
+		// pre-encoded values with the 'right' first byte that are NOT valid JSON: json.Marshal rejects them
+		mkVal("rawtruncobj", json.RawMessage(`{"foo":"bar"`)),
+		mkVal("rawtruncarr", json.RawMessage(`[1,2,3`)),
+		mkVal("rawnovalue", json.RawMessage(`{"foo":}`)),
+		mkVal("rawdangling", json.RawMessage(`[1,2,]`)),
+		mkVal("rawextraclose", json.RawMessage(`{"a":1}}`)),
+		mkVal("rawextraclosearr", json.RawMessage(`[1]]`)),
+		mkVal("rawtrailing", json.RawMessage(`{"a":1},"extra":{"injected":true}`)),
+		mkVal("rawtrailingarr", json.RawMessage(`[1],"extra":[2]`)),
+		mkVal("rawtwovalues", json.RawMessage(`{"a":1} {"b":2}`)),
+		mkVal("rawempty", json.RawMessage{}),
+		mkVal("rawspace", json.RawMessage("  ")),
+		mkVal("rawbadstring", json.RawMessage("{\"a\":\"\x01\"}")),
+		mkVal("rawbadptr", &rawBad),
+		mkVal("bytesmarshalertrunc", bytesMarshaler(`{"a":1`)),
+		mkVal("bytesmarshalertrailing", bytesMarshaler(`[1],"x":[2]`)),
+		mkVal("bytesmarshalerempty", bytesMarshaler("")),
+		mkVal("rawbadinmap", map[string]interface{}{"ok": json.RawMessage(`{"a":1}`), "bad": json.RawMessage(`{"a":1`)}),
+		mkVal("rawbadinslice", []interface{}{1, json.RawMessage(`[1,2,]`)}),
+		mkVal("rawbadinstruct", struct {
+			R json.RawMessage `json:"r"`
+		}{R: json.RawMessage(`{"foo":}`)}),
+		mkVal("rawbadslice", []json.RawMessage{json.RawMessage(`[1]`), json.RawMessage(`[1`)}),
 	}
 }
 
@@ -2039,6 +2087,6 @@ func main() {
 		}
 	}
 	Emit(o, "C07", "From GoRes Require Import Run.Run_C07.\nFrom Coq Require Import String.", "ccase",
-		"directed cases (every reply method x every catalogue value incl. 13 unmarshalable ones x meta combinations x HTTP flag, error values with/without data, nil *Error via Error() and panic(), panics of every kind, Timeout, every event method x resource type x apply outcome, custom event names, Service.Reset/ResetAll/TokenEvent/TokenEventWithID/TokenReset with valid and invalid arguments, query events with query requests) + random handler/With/query scripts of 0-5 actions on a real res.Service over a recording connection + request SEQUENCES on one running service (HTTP-flagged then unflagged / empty / null / explicit-false payloads with fields omitted rather than zeroed, handlers setting meta conditionally on IsHTTP() and unconditionally; each request validated against its own wire flags, handler-observed request fields compared with the wire); every published message is validated; non-trivial = the service published something besides the start-up system.reset; distinct by the list of inputs",
+		"directed cases (every reply method x every catalogue value incl. 33 unmarshalable ones: chan/func/NaN/failing or invalid MarshalJSON/cycles and 20 pre-encoded json.RawMessage / MarshalJSON-bytes values that are not valid JSON - truncated, missing value, dangling comma, extra closing bracket, trailing data, empty, nested in map/slice/struct - next to valid pre-encoded ones with and without surrounding whitespace x meta combinations x HTTP flag, error values with/without data, nil *Error via Error() and panic(), panics of every kind, Timeout, every event method x resource type x apply outcome, custom event names, Service.Reset/ResetAll/TokenEvent/TokenEventWithID/TokenReset with valid and invalid arguments, query events with query requests) + random handler/With/query scripts of 0-5 actions on a real res.Service over a recording connection + request SEQUENCES on one running service (HTTP-flagged then unflagged / empty / null / explicit-false payloads with fields omitted rather than zeroed, handlers setting meta conditionally on IsHTTP() and unconditionally; each request validated against its own wire flags, handler-observed request fields compared with the wire); every published message is validated; non-trivial = the service published something besides the start-up system.reset; distinct by the list of inputs",
 		cases, dist, nil, impl, 250)
 }
